@@ -432,6 +432,8 @@ pub fn spaces(tier: &str) -> Vec<Box<dyn Space>> {
     v.push(fam_space(family_b1(all_seeds(true, if thorough { 100_000 } else { 200 }), if thorough { 3 } else { 2 })));
     v.push(fam_space(family_b_trunc(all_seeds(true, 100_000), 2)));
     v.push(fam_space(family_d()));
+    v.push(fam_space(family_e(false)));
+    v.push(fam_space(family_e(true)));
     if thorough {
         v.push(fam_space(family_a_v9(16)));
         v.push(fam_space(family_a_ipfix(16)));
